@@ -4,14 +4,44 @@
 //! extension types: `()`, a user struct (`Custom`, serde-derived map) and the Node API
 //! `Extensions` (basic + causal; causal only constructible by decoding CBOR).
 //!
+//! The encoding is a function of the header value only and decoding is a function of the bytes
+//! only — in particular neither may consult the wall clock. `Timestamp::now()` reads
+//! `mock_instant`'s thread-local `MockClock` (p2panda-core/test_utils); the harness sets that clock
+//! to a fresh NON-ZERO reading before every `to_bytes` and before EVERY decode, and the two
+//! decodes of a case run at two different readings (tag `decode-depends-on-clock`).
+//!
 //! Request lines (see lean/Drv/C02.lean):
 //!   rt  <T> <hdr8> ; S <key> <sig> <tok>*      answer  <tok>* | ok same= rest= reenc= verify=   (| err)
 //!   dec <T> K=<ids> ; <tok>*                    answer  ok <hdr8> rest=<n> | err
+use std::time::Duration;
+
 use h_hdr::*;
 use hc::{Args, Out, Rng, Tier};
-use p2panda::operation::Extensions as NodeExt;
+use mock_instant::thread_local::MockClock;
+use p2panda::operation::{Extensions as NodeExt, LogId};
 use p2panda_core::cbor::{decode_cbor, encode_cbor};
-use p2panda_core::{Extensions, Header, SigningKey, validate_header};
+use p2panda_core::{Extensions, Header, SigningKey, Topic, validate_header};
+
+// ---------------------------------------------------------------------------------------------
+// wall clock (what `Timestamp::now()` returns, in µs)
+// ---------------------------------------------------------------------------------------------
+
+fn set_clock(micros: u64) {
+    MockClock::set_system_time(Duration::from_micros(micros));
+}
+
+/// A fresh non-zero clock reading; consecutive readings differ and cycle through four regimes
+/// (tiny, around 2^32, "today" ~1.7e15 µs, close to u64::MAX/2). Deterministic (case counter only).
+fn next_clock(cx: &mut Ctx) -> u64 {
+    cx.clock_n += 1;
+    let n = cx.clock_n;
+    match n % 4 {
+        0 => n,
+        1 => 1_700_000_000_000_000 + n * 977,
+        2 => (1u64 << 32) + n,
+        _ => u64::MAX / 2 - n,
+    }
+}
 
 // ---------------------------------------------------------------------------------------------
 // Node extensions: built by decoding hand-written CBOR, described by re-reading their encoding
@@ -29,6 +59,13 @@ struct NodeDesc {
     log: Vec<u8>,
     ts: u64,
     kind: NodeKind,
+    /// basic variant only: the topic the log id is derived from, so that the value can be built
+    /// through the public constructor (`Extensions::from_topic`) instead of through the decoder
+    topic: Option<[u8; 32]>,
+}
+
+fn same_desc(a: &NodeDesc, b: &NodeDesc) -> bool {
+    a.log == b.log && a.ts == b.ts && a.kind == b.kind
 }
 
 /// CBOR of a Node extensions value with the elements of `previous` in the given wire order.
@@ -55,8 +92,21 @@ fn node_cbor(log: &[u8], ts: u64, kind: &NodeKind, wire_order: Option<&[Vec<u8>]
     write_toks(&t)
 }
 
-fn make_node(log: &[u8], ts: u64, kind: &NodeKind, wire_order: Option<&[Vec<u8>]>) -> NodeExt {
+/// Built by decoding hand-written CBOR while the wall clock reads `clock` (non-zero).
+fn make_node(log: &[u8], ts: u64, kind: &NodeKind, wire_order: Option<&[Vec<u8>]>, clock: u64) -> NodeExt {
+    set_clock(clock);
     decode_cbor::<NodeExt, _>(&node_cbor(log, ts, kind, wire_order)[..]).expect("well-formed node extensions decode")
+}
+
+/// Basic extensions built WITHOUT the decoder, through the public API: `from_topic` stamps the
+/// value with `Timestamp::now()`, so the clock is put at exactly `ts` (0 included) first.
+fn make_basic_api(topic: [u8; 32], ts: u64, prune: bool) -> NodeExt {
+    set_clock(ts);
+    NodeExt::from_topic(Topic::from(topic)).set_prune_flag(prune)
+}
+
+fn log_of_topic(topic: [u8; 32]) -> Vec<u8> {
+    LogId::from_topic(Topic::from(topic)).as_bytes().to_vec()
 }
 
 /// Describe a Node extensions value through its public accessors and (for the variant and the
@@ -76,7 +126,7 @@ fn describe_node(e: &NodeExt) -> NodeDesc {
             NodeKind::Causal(prev)
         }
     };
-    NodeDesc { log, ts, kind }
+    NodeDesc { log, ts, kind, topic: None }
 }
 
 fn node_ops() -> ExtOps<NodeExt> {
@@ -111,10 +161,13 @@ fn node_ops() -> ExtOps<NodeExt> {
 struct Ctx {
     out: Out,
     last_presence: (bool, bool, bool),
+    clock_n: u64,
 }
 
-/// Decode with a slice reader so that the number of unread heads can be reported.
-fn decode_rest<E: Extensions>(bytes: &[u8]) -> Result<(Header<E>, usize), String> {
+/// Decode with a slice reader so that the number of unread heads can be reported. The wall clock
+/// reads `clock` while the decoder runs.
+fn decode_rest<E: Extensions>(bytes: &[u8], clock: u64) -> Result<(Header<E>, usize), String> {
+    set_clock(clock);
     let mut rd: &[u8] = bytes;
     match decode_cbor::<Header<E>, _>(&mut rd) {
         Ok(h) => Ok((h, read_toks(rd).map(|t| t.len()).unwrap_or(usize::MAX))),
@@ -130,11 +183,13 @@ fn run_rt<E: Extensions + PartialEq + std::panic::RefUnwindSafe>(
     h: &Header<E>,
     twin: Option<&Header<E>>,
     prev_len: usize,
-) {
+) -> Option<(u64, String, String)> {
+    let (c0, c1, c2) = (next_clock(cx), next_clock(cx), next_clock(cx));
     let res = hc::catch(|| {
+        set_clock(c0);
         let bytes = h.to_bytes();
-        let d1 = decode_rest::<E>(&bytes);
-        let d2 = decode_rest::<E>(&bytes);
+        let d1 = decode_rest::<E>(&bytes, c1);
+        let d2 = decode_rest::<E>(&bytes, c2);
         (bytes, d1, d2)
     });
     let (bytes, d1, d2) = match res {
@@ -142,7 +197,7 @@ fn run_rt<E: Extensions + PartialEq + std::panic::RefUnwindSafe>(
         Err(p) => {
             let n = cx.out.case("rt PANIC", "PANIC", false);
             cx.out.oracle_fail(n, "panic", &format!("to_bytes/decode panicked: {p}"), "rt PANIC", "PANIC");
-            return;
+            return None;
         }
     };
     let toks = read_toks(&bytes);
@@ -156,6 +211,9 @@ fn run_rt<E: Extensions + PartialEq + std::panic::RefUnwindSafe>(
         collect_sig_entry(e, &mut all);
     }
     if let Ok((d, _)) = &d1 {
+        collect_header(d, x, &mut all);
+    }
+    if let Ok((d, _)) = &d2 {
         collect_header(d, x, &mut all);
     }
     let ids = IdMap::new(all);
@@ -203,6 +261,25 @@ fn run_rt<E: Extensions + PartialEq + std::panic::RefUnwindSafe>(
         Some(t) if write_toks(t) == bytes => {}
         _ => cx.out.oracle_fail(n, "cbor-not-canonical", "to_bytes() is not the shortest-form definite-length encoding of its own item heads", &req, &ans),
     }
+    // decoding is a function of the bytes: the same bytes read at two wall-clock readings give the
+    // same header (whether or not the header is valid)
+    if let (Ok((a, _)), Ok((b2, _))) = (&d1, &d2) {
+        if a != b2 {
+            cx.out.oracle_fail(
+                n,
+                "decode-depends-on-clock",
+                &format!(
+                    "the same bytes decoded while the local clock reads {c1} and {c2} give two different headers: {} vs {} (encoded: {})",
+                    render_header(a, x, &ids),
+                    render_header(b2, x, &ids),
+                    render_header(h, x, &ids)
+                ),
+                &req,
+                &ans,
+            );
+        }
+    }
+    cx.out.count("rt decoded at two different non-zero clock readings");
     // "passes validation" judged from the property's statement, not by calling validate_header:
     // honestly signed (real verify_strict over the real unsigned bytes), supported version,
     // payload hash iff size > 0, backlink iff seq > 0
@@ -244,15 +321,21 @@ fn run_rt<E: Extensions + PartialEq + std::panic::RefUnwindSafe>(
             cx.out.oracle_fail(n, &format!("nondeterministic-encoding{causal}"), "equal header values encode to different bytes", &req, &ans);
         }
     }
+    Some((n, req, ans))
 }
 
 /// `dec` case: a (possibly malformed) head stream through the real decoder.
 fn run_dec<E: Extensions + PartialEq + std::panic::RefUnwindSafe>(cx: &mut Ctx, x: &ExtOps<E>, toks: &[Tok], what: &str) {
     let bytes = write_toks(toks);
-    let res = hc::catch(|| decode_rest::<E>(&bytes));
+    let (c1, c2) = (next_clock(cx), next_clock(cx));
+    let res = hc::catch(|| decode_rest::<E>(&bytes, c1));
+    let res2 = hc::catch(|| decode_rest::<E>(&bytes, c2));
     let mut all = vec![];
     collect_tok_bytes(toks, &mut all);
     if let Ok(Ok((h, _))) = &res {
+        collect_header(h, x, &mut all);
+    }
+    if let Ok(Ok((h, _))) = &res2 {
         collect_header(h, x, &mut all);
     }
     let ids = IdMap::new(all);
@@ -270,7 +353,22 @@ fn run_dec<E: Extensions + PartialEq + std::panic::RefUnwindSafe>(cx: &mut Ctx, 
     };
     let n = cx.out.case(&req, &ans, false);
     cx.out.count(&format!("dec {what} -> {}", if ans.starts_with("ok") { "ok" } else { "err" }));
+    let differs = match (&res, &res2) {
+        (Ok(Ok((a, ra))), Ok(Ok((b2, rb)))) => a != b2 || ra != rb,
+        (Ok(Err(_)), Ok(Err(_))) => false,
+        (Err(_), _) | (_, Err(_)) => false, // reported as a panic below
+        _ => true,
+    };
+    if differs {
+        let second = match &res2 {
+            Ok(Ok((h, rest))) => format!("ok {} rest={}", render_header(h, x, &ids), rest),
+            _ => "err".to_string(),
+        };
+        cx.out.oracle_fail(n, "decode-depends-on-clock", &format!("the same bytes decoded while the local clock reads {c1} and {c2} give different results: `{ans}` vs `{second}`"), &req, &ans);
+    }
     if let Err(p) = res {
+        cx.out.oracle_fail(n, "panic", &format!("decoder panicked: {p}"), &req, &ans);
+    } else if let Err(p) = res2 {
         cx.out.oracle_fail(n, "panic", &format!("decoder panicked: {p}"), &req, &ans);
     }
 }
@@ -322,9 +420,14 @@ fn gen_custom(rng: &mut Rng) -> Custom {
 }
 
 fn gen_node_desc(rng: &mut Rng, max_prev: usize) -> NodeDesc {
-    let log = hash_from(rng).as_bytes().to_vec();
+    let mut log = hash_from(rng).as_bytes().to_vec();
     let ts = boundary_uint(rng, 64);
+    let mut topic = None;
     let kind = if rng.chance(2, 5) {
+        // the random 32 bytes become the topic; the log id is its digest
+        let t: [u8; 32] = log.clone().try_into().unwrap();
+        log = log_of_topic(t);
+        topic = Some(t);
         NodeKind::Basic(rng.chance(1, 2))
     } else {
         let n = if rng.chance(1, 6) { rng.range(0, 1) } else { rng.range(2, max_prev as u64) } as usize;
@@ -337,7 +440,7 @@ fn gen_node_desc(rng: &mut Rng, max_prev: usize) -> NodeDesc {
         prev.dedup();
         NodeKind::Causal(prev)
     };
-    NodeDesc { log, ts, kind }
+    NodeDesc { log, ts, kind, topic }
 }
 
 /// `n` distinct 32-byte strings that share a common prefix of 1..=31 bytes and differ only in
@@ -380,12 +483,52 @@ fn shuffled(rng: &mut Rng, d: &NodeDesc) -> Option<Vec<Vec<u8>>> {
     }
 }
 
+/// The extensions value of `d` built twice. First: basic variant through the public constructor
+/// (no decoder involved); causal variant (no constructor) by decoding hand-written CBOR. Second
+/// (the twin): always by decoding hand-written CBOR, at another non-zero clock reading, other
+/// wire order of `previous`. The third component says which of them does not carry the fields
+/// that were asked for (judged through the accessors / its own encoding).
+fn node_exts(cx: &mut Ctx, d: &NodeDesc, o1: Option<&[Vec<u8>]>, o2: Option<&[Vec<u8>]>) -> (NodeExt, NodeExt, Option<String>) {
+    let e1 = match (&d.kind, d.topic) {
+        (NodeKind::Basic(p), Some(t)) => make_basic_api(t, d.ts, *p),
+        _ => make_node(&d.log, d.ts, &d.kind, o1, next_clock(cx)),
+    };
+    let c2 = next_clock(cx);
+    let e2 = make_node(&d.log, d.ts, &d.kind, o2, c2);
+    let mut bad = None;
+    for (how, e) in [("built value", &e1), ("value decoded from hand-written CBOR", &e2)] {
+        let got = describe_node(e);
+        if !same_desc(&got, d) {
+            bad = Some(format!("{how} has timestamp {} (wire/asked: {}), log id {}, variant/previous {}", got.ts, d.ts, if got.log == d.log { "as asked" } else { "DIFFERENT" }, if got.kind == d.kind { "as asked" } else { "DIFFERENT" }));
+        }
+    }
+    (e1, e2, bad)
+}
+
+/// `rt` case for a Node header pair + distribution counters + the construction check.
+fn run_node(cx: &mut Ctx, nx: &ExtOps<NodeExt>, d: &NodeDesc, p: &(Header<NodeExt>, Header<NodeExt>, Option<String>)) {
+    let case = run_rt(cx, nx, &p.0, Some(&p.1), prev_len(d));
+    let variant = if matches!(d.kind, NodeKind::Basic(_)) { "basic" } else { "causal" };
+    let class = match d.ts {
+        0 => "0",
+        1 => "1",
+        2..=0xffff_ffff => "2..2^32-1",
+        0x1_0000_0000..=0x7fff_ffff_ffff_ffff => "2^32..2^63-1",
+        0x8000_0000_0000_0000..=0xffff_ffff_ffff_fffd => "2^63..u64::MAX-2",
+        0xffff_ffff_ffff_fffe => "u64::MAX-1",
+        _ => "u64::MAX",
+    };
+    cx.out.count(&format!("rt N {variant} timestamp={class}"));
+    if let (Some(what), Some((n, req, ans))) = (&p.2, &case) {
+        cx.out.oracle_fail(*n, "decoded-extensions-differ-from-wire", what, req, ans);
+    }
+}
+
 /// Node header + an independently built twin (other wire order of `previous`, fresh hash sets).
-fn node_pair(rng: &mut Rng, pools: &Pools, d: &NodeDesc, presence: Option<(bool, bool, bool)>, wf: bool) -> (Header<NodeExt>, Header<NodeExt>) {
+fn node_pair(cx: &mut Ctx, rng: &mut Rng, pools: &Pools, d: &NodeDesc, presence: Option<(bool, bool, bool)>, wf: bool) -> (Header<NodeExt>, Header<NodeExt>, Option<String>) {
     let o1 = shuffled(rng, d);
     let o2 = shuffled(rng, d);
-    let e1 = make_node(&d.log, d.ts, &d.kind, o1.as_deref());
-    let e2 = make_node(&d.log, d.ts, &d.kind, o2.as_deref());
+    let (e1, e2, bad) = node_exts(cx, d, o1.as_deref(), o2.as_deref());
     let (h1, key) = gen_header(rng, pools, e1, presence, wf);
     let mut h2 = Header::<NodeExt> {
         version: h1.version,
@@ -403,7 +546,7 @@ fn node_pair(rng: &mut Rng, pools: &Pools, d: &NodeDesc, presence: Option<(bool,
         h2.signature = h1.signature;
         let _ = key;
     }
-    (h1, h2)
+    (h1, h2, bad)
 }
 
 fn mutate(rng: &mut Rng, toks: &[Tok]) -> (Vec<Tok>, &'static str) {
@@ -542,8 +685,9 @@ fn generate(args: &Args, cx: &mut Ctx) {
         let mut prev: Vec<Vec<u8>> = (0..8).map(|_| hash_from(&mut rng).as_bytes().to_vec()).collect();
         prev.sort();
         d.kind = NodeKind::Causal(prev);
-        let (h1, h2) = node_pair(&mut rng, &pools, &d, Some((true, true, true)), true);
-        run_rt(cx, &nx, &h1, Some(&h2), 8);
+        d.topic = None;
+        let pr = node_pair(cx, &mut rng, &pools, &d, Some((true, true, true)), true);
+        run_node(cx, &nx, &d, &pr);
     }
 
     // 0b. crafted `previous` sets: every common-prefix length 1..=31, sets of 2..16 hashes
@@ -564,12 +708,40 @@ fn generate(args: &Args, cx: &mut Ctx) {
                 .collect();
             prev.sort();
             prev.dedup();
-            let k = prev.len();
             d.kind = NodeKind::Causal(prev);
+            d.topic = None;
             let (ph, bl) = (rng.chance(1, 2), rng.chance(1, 2));
-            let (h1, h2) = node_pair(&mut rng, &pools, &d, Some((true, ph, bl)), true);
-            run_rt(cx, &nx, &h1, Some(&h2), k);
+            let pr = node_pair(cx, &mut rng, &pools, &d, Some((true, ph, bl)), true);
+            run_node(cx, &nx, &d, &pr);
             cx.out.count("rt crafted common-prefix previous set");
+        }
+    }
+
+    // 0c. boundary timestamps (0, 1, every CBOR width change, "today", 2^63, u64::MAX-1, u64::MAX)
+    //     × {basic prune=F/T, causal with 0/1/3 previous} × presence patterns, validated headers;
+    //     each decoded at two different non-zero clock readings
+    let ts_pool: [u64; 18] = [
+        0, 1, 2, 23, 24, 255, 256, 65535, 65536, (1 << 32) - 1, 1 << 32, 1_700_000_000_000_000,
+        (1 << 53) + 1, i64::MAX as u64, 1 << 63, u64::MAX - 2, u64::MAX - 1, u64::MAX,
+    ];
+    for &ts in &ts_pool {
+        for variant in 0..5usize {
+            let presences: &[(bool, bool, bool)] = if args.tier == Tier::Quick && ts > 2 { &[(true, true, true), (true, false, false)] } else { &[(true, true, true), (true, true, false), (true, false, true), (true, false, false)] };
+            for &p in presences {
+                let t: [u8; 32] = rng.bytes(32).try_into().unwrap();
+                let d = match variant {
+                    0 | 1 => NodeDesc { log: log_of_topic(t), ts, kind: NodeKind::Basic(variant == 1), topic: Some(t) },
+                    _ => {
+                        let n = [0usize, 1, 3][variant - 2];
+                        let mut prev: Vec<Vec<u8>> = (0..n).map(|_| hash_from(&mut rng).as_bytes().to_vec()).collect();
+                        prev.sort();
+                        NodeDesc { log: t.to_vec(), ts, kind: NodeKind::Causal(prev), topic: None }
+                    }
+                };
+                let pr = node_pair(cx, &mut rng, &pools, &d, Some(p), true);
+                run_node(cx, &nx, &d, &pr);
+                cx.out.count("rt boundary-timestamp sweep");
+            }
         }
     }
 
@@ -578,13 +750,13 @@ fn generate(args: &Args, cx: &mut Ctx) {
         for p in all_presence() {
             for _ in 0..(if args.tier == Tier::Quick { 2 } else { 12 }) {
                 let (h, _) = gen_header(&mut rng, &pools, (), Some(p), wf);
-                run_rt(cx, &u, &h, None, 0);
+                let _ = run_rt(cx, &u, &h, None, 0);
                 let c = gen_custom(&mut rng);
                 let (h, _) = gen_header(&mut rng, &pools, c, Some(p), wf);
-                run_rt(cx, &k, &h, None, 0);
+                let _ = run_rt(cx, &k, &h, None, 0);
                 let d = gen_node_desc(&mut rng, max_prev);
-                let (h1, h2) = node_pair(&mut rng, &pools, &d, Some(p), wf);
-                run_rt(cx, &nx, &h1, Some(&h2), prev_len(&d));
+                let pr = node_pair(cx, &mut rng, &pools, &d, Some(p), wf);
+                run_node(cx, &nx, &d, &pr);
             }
         }
     }
@@ -596,17 +768,17 @@ fn generate(args: &Args, cx: &mut Ctx) {
         match rng.below(4) {
             0 => {
                 let (h, _) = gen_header(&mut rng, &pools, (), presence, wf);
-                run_rt(cx, &u, &h, None, 0);
+                let _ = run_rt(cx, &u, &h, None, 0);
             }
             1 => {
                 let c = gen_custom(&mut rng);
                 let (h, _) = gen_header(&mut rng, &pools, c, presence, wf);
-                run_rt(cx, &k, &h, None, 0);
+                let _ = run_rt(cx, &k, &h, None, 0);
             }
             _ => {
                 let d = gen_node_desc(&mut rng, max_prev);
-                let (h1, h2) = node_pair(&mut rng, &pools, &d, presence, wf);
-                run_rt(cx, &nx, &h1, Some(&h2), prev_len(&d));
+                let pr = node_pair(cx, &mut rng, &pools, &d, presence, wf);
+                run_node(cx, &nx, &d, &pr);
             }
         }
     }
@@ -646,7 +818,7 @@ fn generate(args: &Args, cx: &mut Ctx) {
             }
             _ => {
                 let d = gen_node_desc(&mut rng, 5);
-                let (h, _) = node_pair(&mut rng, &pools, &d, None, true);
+                let (h, _, _) = node_pair(cx, &mut rng, &pools, &d, None, true);
                 let mut t = read_toks(&h.to_bytes()).unwrap();
                 let mut what = "none";
                 if !rng.chance(1, 15) {
@@ -762,40 +934,45 @@ fn replay_rt(cx: &mut Ctx, parts: &[&str]) {
     match tag {
         "U" => {
             let h = finish(hdr!(()), &key, sig, honest);
-            run_rt(cx, &unit_ops(), &h, None, 0);
+            let _ = run_rt(cx, &unit_ops(), &h, None, 0);
         }
         "K" => {
             let f: Vec<&str> = ext.split(':').collect();
             let e = Custom { custom_field: f[1].parse().unwrap(), flag: f[2] == "T" };
             let h = finish(hdr!(e), &key, sig, honest);
-            run_rt(cx, &custom_ops(), &h, None, 0);
+            let _ = run_rt(cx, &custom_ops(), &h, None, 0);
         }
         _ => {
             let f: Vec<&str> = ext.split(':').collect();
-            let log = synth_hash(f[1]).as_bytes().to_vec();
+            let mut log = synth_hash(f[1]).as_bytes().to_vec();
             let ts: u64 = f[2].parse().unwrap();
+            let mut topic = None;
             let kind = if f[0] == "B" {
+                let t: [u8; 32] = log.clone().try_into().unwrap();
+                log = log_of_topic(t);
+                topic = Some(t);
                 NodeKind::Basic(f[3] == "T")
             } else {
                 let mut prev: Vec<Vec<u8>> = if f[3] == "-" { vec![] } else { f[3].split('.').map(|i| synth_hash(i).as_bytes().to_vec()).collect() };
                 prev.sort();
                 NodeKind::Causal(prev)
             };
-            let d = NodeDesc { log, ts, kind };
+            let d = NodeDesc { log, ts, kind, topic };
             let mut rng = Rng::new(7);
             let o1 = shuffled(&mut rng, &d);
             let o2 = shuffled(&mut rng, &d);
-            let h1 = finish(hdr!(make_node(&d.log, d.ts, &d.kind, o1.as_deref())), &key, sig, honest);
-            let mut h2 = hdr!(make_node(&d.log, d.ts, &d.kind, o2.as_deref()));
+            let (e1, e2, bad) = node_exts(cx, &d, o1.as_deref(), o2.as_deref());
+            let h1 = finish(hdr!(e1), &key, sig, honest);
+            let mut h2 = hdr!(e2);
             h2.signature = h1.signature;
-            run_rt(cx, &node_ops(), &h1, Some(&h2), prev_len(&d));
+            run_node(cx, &node_ops(), &d, &(h1, h2, bad));
         }
     }
 }
 
 fn main() {
     let args = Args::parse();
-    let mut cx = Ctx { out: Out::new(&args.out), last_presence: (false, false, false) };
+    let mut cx = Ctx { out: Out::new(&args.out), last_presence: (false, false, false), clock_n: 0 };
     if args.mode == "replay" {
         replay(&args, &mut cx);
         cx.out.finish("replay", false);
@@ -803,7 +980,7 @@ fn main() {
     }
     generate(&args, &mut cx);
     cx.out.finish(
-        "rt: header value -> to_bytes -> item heads (compared with the model's encoding) -> decoded twice -> equal, re-encoded bytes equal, hash equal, verify true; all 8 presence combinations x well-formed/ill-formed x {(), user struct, Node basic/causal}; integers around every CBOR width change; causal previous sets of 0..16 (thorough 40) hashes — random digests and crafted hashes sharing a common prefix of every length 1..=31 bytes — each built from two different wire orders and decoded twice from the same bytes. dec: single/double token-level mutations of valid encodings through the real decoder. non-trivial = causal header with >= 2 previous hashes, or optional-field presence pattern different from the previous case",
+        "the mock wall clock (Timestamp::now) is set to a fresh non-zero reading (4 regimes: tiny, ~2^32, ~1.7e15, ~u64::MAX/2) before every to_bytes and before EVERY decode; Node basic extensions are built through Extensions::from_topic at clock = the wanted timestamp (0 included), their twin and all causal values by decoding hand-written CBOR; Node timestamps: boundary sweep 0,1,2,23,24,255,256,65535,65536,2^32-1,2^32,1.7e15,2^53+1,2^63-1,2^63,u64::MAX-2..u64::MAX x {basic F/T, causal 0/1/3} plus random boundary values. rt: header value -> to_bytes -> item heads (compared with the model's encoding) -> decoded twice at two different clock readings -> equal to each other and to the original, re-encoded bytes equal, hash equal, verify true; all 8 presence combinations x well-formed/ill-formed x {(), user struct, Node basic/causal}; integers around every CBOR width change; causal previous sets of 0..16 (thorough 40) hashes — random digests and crafted hashes sharing a common prefix of every length 1..=31 bytes — each built from two different wire orders and decoded twice from the same bytes. dec: single/double token-level mutations of valid encodings through the real decoder. non-trivial = causal header with >= 2 previous hashes, or optional-field presence pattern different from the previous case",
         false,
     );
 }
